@@ -64,6 +64,7 @@ type callSpec struct {
 	GateUs   int64  `json:"gate_us,omitempty"`  // gate handler: opened by the simulator at this simulated time after the run starts (0: never, until the end-of-run release)
 	DeadlineUs int64 `json:"dl_us,omitempty"`   // context deadline
 	CustomTimeoutMs int32 `json:"cto,omitempty"`
+	CancelOnReply int `json:"cancel_on_reply,omitempty"` // the caller cancels this many canceller yields after the handler returned: the cancellation races with the arriving response
 	CancelAt int    `json:"cancel,omitempty"`   // a canceller goroutine cancels the context after this many of its own yields
 	FailFast bool   `json:"fail_fast,omitempty"`
 	Callback bool   `json:"cb,omitempty"`
@@ -102,6 +103,7 @@ type callsScenario struct {
 	PoolPolicy int `json:"pool_policy"`
 	MapPolicy  int `json:"map_policy"`
 	CondRandom bool `json:"cond_random"`
+	YieldUnlock bool `json:"yield_unlock,omitempty"` // unlocks are scheduling points as well
 	MaxAdvanceExp int `json:"max_advance_exp"` // clock advances while goroutines are runnable are bounded by 1µs<<this
 	Race       bool `json:"race"`            // run with runtime scheduling (the -race configuration)
 	CryptoSeed uint64 `json:"crypto_seed"`
@@ -171,6 +173,10 @@ func callsGen(r *rand.Rand, params map[string]any) callsScenario {
 				c.CustomTimeoutMs = int32(1 + r.IntN(3000))
 			case 2:
 				c.CancelAt = 1 + r.IntN(40)
+			case 3:
+				if c.Handler == "echo" || c.Handler == "gate" || c.Handler == "rpcerr" {
+					c.CancelOnReply = 1 + r.IntN(150)
+				}
 			}
 		}
 		c.FailFast = faulty && r.IntN(6) == 0
@@ -210,6 +216,19 @@ func callsGen(r *rand.Rand, params map[string]any) callsScenario {
 			sc.Calls[i].StartUs += gap
 		}
 	}
+	if faulty && len(sc.Calls) >= 2 && r.IntN(5) == 0 {
+		// directed: an established, idle connection is reset at the moment the next call is issued on it (the
+		// client removes a dead idle connection while a caller is looking it up)
+		first, later := &sc.Calls[0], &sc.Calls[len(sc.Calls)-1]
+		first.Handler, first.StartUs, first.DeadlineUs, first.CustomTimeoutMs, first.CancelAt, first.GateUs = "echo", 0, 0, 0, 0, 0
+		later.Client, later.Server = first.Client, first.Server
+		later.StartUs = int64(50_000 + r.IntN(200_000))
+		at := later.StartUs // the same instant: the scheduler interleaves the teardown with the caller's look-up
+		if r.IntN(2) == 0 {
+			at = max(0, later.StartUs-int64(r.IntN(400))+int64(r.IntN(100)))
+		}
+		sc.Faults = append(sc.Faults, faultSpec{Kind: "reset", Target: r.IntN(2), AtUs: at})
+	}
 	if faulty {
 		nf := r.IntN(4)
 		for i := 0; i < nf; i++ {
@@ -239,6 +258,7 @@ func callsGen(r *rand.Rand, params map[string]any) callsScenario {
 	sc.PoolPolicy = r.IntN(vrt.NumPoolPolicies)
 	sc.MapPolicy = r.IntN(vrt.NumMapPolicies)
 	sc.CondRandom = r.IntN(2) == 0
+	sc.YieldUnlock = r.IntN(2) == 0
 	sc.CryptoSeed = r.Uint64()
 	sc.MaxAdvanceExp = 10 // ~1 ms: a fault-free run must not starve the process into its own timeouts
 	if faulty {
@@ -542,7 +562,10 @@ func (r *callsRun) fail(class, msg string) {
 		// once handlers finish; an accounting leak shows up as a call that never completes
 		class = "C39/waiting-load-never-admitted"
 	}
-	if r.sc.Focus != "" && len(class) > 3 && class[:3] != r.sc.Focus && class != "machinery" && class != "panic" {
+	if class == "panic" && r.sc.Focus != "" {
+		class = r.sc.Focus + "/panic" // a panic inside the client or server while this property's workload ran
+	}
+	if r.sc.Focus != "" && len(class) > 3 && class[:3] != r.sc.Focus && class != "machinery" {
 		r.sim.Count("other_property_class." + class)
 		return
 	}
@@ -629,6 +652,23 @@ func (r *callsRun) handler(si int) HandlerFunc {
 		}
 		r.mu.Unlock()
 		defer func() { r.mu.Lock(); r.running[si]--; r.load[si] -= take; r.mu.Unlock() }()
+		if k := cs.spec.CancelOnReply; k > 0 && !cs.spec.Callback {
+			defer vrt.Go(fmt.Sprintf("cancel-on-reply%d", cs.idx), func() {
+				for i := 0; i < k; i++ {
+					vrt.Yield("harness.cancel-on-reply")
+				}
+				r.mu.Lock()
+				if cs.done || cs.cancel == nil {
+					r.mu.Unlock()
+					return
+				}
+				cs.cancelled = true
+				cancel := cs.cancel
+				r.mu.Unlock()
+				r.sim.Fired("call_cancelled_while_reply_in_flight")
+				cancel()
+			})
+		}
 		hctx.ResponseExtra = mkRespExtra(cs.spec.RespExtra)
 		// A handler may change hctx.RequestExtra (every proxy adds and clears bits); the response must still be
 		// masked by the flags the client sent.
@@ -878,8 +918,15 @@ func (r *callsRun) judge(cs *callState) {
 					other = fmt.Sprintf("call %d's token", o.idx)
 				}
 				r.fail("C38/foreign-response", fmt.Sprintf("call %d (token %x) returned successfully with a body carrying %s (%x)", cs.idx, cs.token, other, tk))
+				// what the client was handed is not what this call's handler set: also a C40 matter
+				r.fail("C40/response-changed", fmt.Sprintf("call %d: the client was handed the response of another call (token %x), extras included", cs.idx, tk))
 				return
 			}
+		}
+		if sp.Handler == "rpcerr" || sp.Handler == "goerr" || sp.Handler == "panic" {
+			r.fail("C40/error-changed", fmt.Sprintf("call %d: its handler (%s) ended with an error, but the client saw success with a body of %d bytes (head %x)", cs.idx, sp.Handler, len(cs.body), cs.body[:min(len(cs.body), 16)]))
+			r.fail("C38/wrong-response", fmt.Sprintf("call %d returned success but its handler (%s) produced an error", cs.idx, sp.Handler))
+			return
 		}
 		if sp.Handler == "longpoll" && bytes.Equal(cs.body, emptyRespBody(cs)) {
 			// the server's own answer at 7/8 of the timeout, written by the canceller on its request
@@ -1468,7 +1515,7 @@ func callsExec(t *testing.T, sc callsScenario, tape *vrt.Tape, keepLog bool) (ou
 		return callsExecRace(t, r)
 	}
 	cfg := vrt.Config{Strategy: sc.Strategy, TimeAdvPct: sc.TimeAdvPct, PCTChanges: 3, PCTSpan: 3000, MaxSteps: 3000000, Horizon: 2 * time.Hour, KeepLog: keepLog,
-		PoolPolicy: sc.PoolPolicy, MapPolicy: sc.MapPolicy, CondRandom: sc.CondRandom, MaxAdvanceExp: sc.MaxAdvanceExp}
+		PoolPolicy: sc.PoolPolicy, MapPolicy: sc.MapPolicy, CondRandom: sc.CondRandom, MaxAdvanceExp: sc.MaxAdvanceExp, YieldAfterUnlock: sc.YieldUnlock}
 	cfg.OnStep = func(s *vrt.Sim) {
 		r.mu.Lock()
 		defer r.mu.Unlock()
@@ -1477,6 +1524,15 @@ func callsExec(t *testing.T, sc callsScenario, tape *vrt.Tape, keepLog bool) (ou
 		}
 		for si := range r.servers {
 			r.checkReqMem(si, "quiescent point")
+		}
+		if !r.fairOn && s.Steps() > 1_000_000 {
+			// The fault plan should have been over long ago (no run of the unchanged tree needs a third of this):
+			// some Close/Shutdown of the plan has not returned. Judge it like the wind-down: fair schedule, bounded
+			// clock, and the no-progress watchdog below.
+			s.Fair()
+			r.fairOn = true
+			r.lastProgress = s.Now()
+			s.Count("probe.fault_phase_overran_switched_to_fair_schedule")
 		}
 		if r.fairOn && s.Now()-r.lastProgress > callsStuckAfter {
 			r.fail("C38/stuck", fmt.Sprintf("no progress for %v of simulated time in phase %q; pending: %s; goroutines:%s", callsStuckAfter, r.phase, r.describePending(), s.Describe()))
@@ -1490,6 +1546,11 @@ func callsExec(t *testing.T, sc callsScenario, tape *vrt.Tape, keepLog bool) (ou
 	}
 	res := vrt.Run(t, cfg, tape, func(s *vrt.Sim) { r.body(tokenSim{s}) })
 	out.Result = res
+	for i := range out.Violations {
+		if out.Violations[i].Class == "panic" && sc.Focus != "" {
+			out.Violations[i].Class = sc.Focus + "/panic" // the client or server panicked while this property's workload ran
+		}
+	}
 	r.summary(&out, nil)
 	out.Nontrivial = res.Stats["sched.contended_steps"] > 0
 	if len(out.Violations) == 0 && res.Outcome != "done" {
